@@ -143,7 +143,7 @@ PLANS["C11"] = {
 }
 PLANS["C18"] = {
     "level": "fault_enumeration",
-    "stages": [{"world": "inplace", "runs": {"quick": 1000, "thorough": 40000}}],
+    "stages": [{"world": "inplace", "runs": {"quick": 600, "thorough": 40000}}],
     "rule": ("scenarios are sampled (repodata documents with 0-6 artifacts per section in several on-disk formats, GPG-path envelopes, "
              "CLI wrappers, malformed inputs, bad keys/fingerprints); within each scenario the enumeration is exhaustive: an exception "
              "at every line event executed inside library frames before the first opening-for-write of the target, an I/O error or "
@@ -261,3 +261,14 @@ PLANS["C07"]["stages"].append({"world": "storage", "runs": {"quick": 400, "thoro
 PLANS["C07"]["rule"] += ("; plus the envelope and storage worlds with C07 as target: every library-made signature must verify over the *reference* "
                          "canonical bytes of the payload presented at signing time (independent RFC 8032), every file the library writes must equal "
                          "the reference bytes")
+
+for _p, _n in (("C01", 200), ("C02", 150), ("C03", 150), ("C05", 150), ("C06", 150), ("C09", 150), ("C10", 100)):
+    PLANS[_p]["stages"].append({"world": "threads", "runs": {"quick": _n, "thorough": _n * 40}})
+    PLANS[_p]["rule"] += ("; plus the thread world (1-4 baton-scheduled threads over a shared pool, every outcome compared with the call "
+                          "evaluated alone) with this property as target: a verdict that differs from the isolated one is reported here too")
+
+PLANS["C10"]["stages"].append({"world": "config", "runs": {"quick": 16, "thorough": 500}})
+PLANS["C10"]["rule"] += ("; plus the configuration leg: OpenPGP-mode positives and negatives evaluated in fresh interpreters, a quarter of them with a "
+                         "stand-in securesystemslib importable (a root key holder's environment)")
+for _p, _n in (("C04", 150), ("C16", 150), ("C08", 150), ("C11", 150)):
+    PLANS[_p]["stages"].append({"world": "threads", "runs": {"quick": _n, "thorough": _n * 40}})
